@@ -8,8 +8,16 @@ preservation / Hermiticity / complete positivity.  Every map is handed to the ex
 (`c06_decide`: the Choi matrix over Q[i] is formed by the definition J = sum vec(A) vec(B)^dagger, and
 Tr_out J = 1, Tr_in J = 1, J = J^dagger are decided exactly; positive semidefiniteness is certified by a
 factor L with J - L L^dagger diagonally dominant, or refuted by an explicit vector v with v^dagger J v < -margin;
-rank and Choi's extremality criterion by exact elimination, proved equal to Matrix.rank: C06.rankQ_eq_rank / choiRank_exact) and, rounded to doubles, to every toqito
-predicate in every list / Choi form its signature documents.  Verdicts must agree.
+rank and Choi's extremality criterion by exact elimination, proved equal to Matrix.rank: C06.rankQ_eq_rank / choiRank_exact; the extremality
+decider is proved to answer true exactly for the extreme points of the set of channels: C06.extremalDecide_correct) and, rounded to doubles, to every toqito
+predicate in every list / Choi form its signature documents.  Verdicts must agree.  is_extremal on list forms is additionally compared with the
+mirror of its own procedure (criterion on the list as given, C06.extremalAsCoded_correct / extremalAsCoded_dependent).
+
+Part A' (tolerance arithmetic).  Exactly representable channels (signed permutations, their mixtures and Stinespring cuts) whose Choi matrix is moved in
+one entry (pair) by delta = tau (1 - 1/8) or tau (1 + 1/4), tau = atol + rtol |b| the np.allclose threshold at that entry, for seven (rtol, atol) settings
+passed positionally or by keyword (or not at all); paired lists [[K, (1 + delta) K]]; Hermitian matrices with an exact rational eigenbasis whose smallest
+eigenvalue is -|atol| (1 -+ 1/16).  Oracle: the exact two-valued mirror of the tolerance tests (`c06_close`: np.allclose decided on the rationals,
+C06.allclose_mirror; eigenvalue test by certificates, C06.psdTolV_yes_imp / psdTolV_no_imp), used only where its answer is the same at (1 -+ 1/64) x tolerances.
 
 Part B (constructors).  depolarizing, dephasing, reduction, choi, amplitude_damping, phase_damping, bitflip,
 pauli_channel over parameter grids (end points, interior, just outside the documented range) and dims 2..4
@@ -43,6 +51,8 @@ RULE = ("Predicates: ground-truth maps with exact rational data — Stinespring 
         "d_in != d_out). A predicate case is non-trivial when both spaces have dimension >= 2 and the Lean verdict is decided (yes/no with margin); "
         "distinct = hash of (predicate, form, kind, dims, seed-derived data). Constructors: every (constructor, dimension, parameter) point of the grids "
         "below incl. end points and just-outside values; non-trivial = parameter strictly inside the range or dimension >= 3. "
+        "Tolerance stream: every (base map, perturbation kind in none / tp-diag / tp-off / unital-off / herm-off / herm-diag / pairs-scale / psd-boundary, side "
+        "inside / outside, (rtol, atol) setting, predicate) combination; non-trivial when the exact mirror is decided with the 1/64 margin; distinct = that tuple plus the seed. "
         "Presentation: every ndarray handed to a toqito function (each operator of a Kraus list independently, Choi matrices, input operators X, also the "
         "objects returned by the constructors when they are passed on) is a re-presentation of the same values determined by the case (C / Fortran / strided / "
         "permuted-stride layout; zero imaginary part also as float64, integer values also as int64), so lists mix dtypes and layouts; after every call the "
@@ -50,7 +60,8 @@ RULE = ("Predicates: ground-truth maps with exact rational data — Stinespring 
 ASSUMPTIONS = [
     "toqito receives the double rounding of the exact rational data handed to the Lean deciders (relative error 2^-53 per entry, far below rtol=1e-5/atol=1e-8); verdicts are compared only when the exact decider says yes (relation holds exactly / certified) or no (violated by >= 100*(atol+rtol*scale), or an explicit negative witness with that margin)",
     "is_unitary / is_extremal / choi_rank decide through floating-point ranks: generated maps of rank >= 2 have their non-zero Choi eigenvalues >= 1e-3 (weights >= 1/64 on orthogonal or generic operators), except the weak-damping family (amplitude damping with gamma = 1.5e-5, 4e-6, 1e-6 between rational unitaries; non-zero Choi eigenvalues >= 1e-6 and smallest singular value of the extremality criterion matrix >= 500 * tol, tol = 1e-9); choi_rank is only asked on inputs whose double image is exact (integers, dyadic rationals)",
-    "extremality: Choi's theorem (a CP map with linearly independent Kraus operators K_i is extremal among maps with the same sum K_i^dagger K_i iff {K_i^dagger K_j} is linearly independent) is cited, not proved; the Lean decider evaluates the criterion exactly on a basis of span{K_i}",
+    "extremality: proved, not assumed (C06.extremalDecide_correct: the exact decider answers true iff the channel is an extreme point of the convex set of channels; Choi's theorem C06.extreme_iff_kraus_products_independent); the only assumption left is numerical: toqito's floating-point rank of the criterion matrix equals the exact rank on the generated maps (margins above)",
+    "tolerance stream: toqito evaluates |a - b| <= atol + rtol |b| in double precision on the double rounding of the exact data; the generated cases keep a relative distance >= 1/64 from the threshold (>= 6e-11 absolute for the eigenvalue test), far above the rounding errors (1e-16 relative); eigenvalue tests whose threshold -|atol| is within 1e-10 of an exact eigenvalue 0 are not compared",
     "constructors with irrational square roots are compared at tolerance 1e-12 with the Lean closed form at rational roots (parameters gamma, p in {a^2/c^2}) or through their squared entries",
 ]
 
@@ -462,6 +473,13 @@ def gt_random_int(rng, di, do, r, cp, mix=False):
     return GT("int-pairs", di, do, As, Bs)
 
 
+def gt_neg_unitary(rng, d, dyadic=False):
+    """X -> -U X U^dagger as the pair [[U, -U]]: Hermiticity preserving, trace preserving up to sign only, Choi matrix -vec(U)vec(U)^dagger of
+    rank one (the branch of is_unitary that compares the two operators of a single pair)"""
+    U = rational_unitary(rng, d, int(rng.integers(d, 2 * d + 2)), dyadic)
+    return GT("neg-unitary" + ("-dyadic" if dyadic else ""), d, d, [U], [U.scale(-1)], v=vec(U))
+
+
 def gt_planted_rank(rng, di, do, r, extra):
     """integer CP family with `extra` operators that are integer combinations of the first r"""
     base = gt_random_int(rng, di, do, r, True).As
@@ -728,8 +746,8 @@ def check_map(ctx, tally, g: GT, seed, with_choi=True):
         if is_list or di == do:
             check_pred(ctx, tally, g, seed, form, is_quantum_channel, (obj,), {}, and3(cp, tp), "cp_iff_choi_psd + tp_iff_ptrace_choi", ex)
         # --- unitary channel (for non-CP paired lists toqito documents only [[U, U]]; ask when the map is given by one list)
-        if form == "choi" or g.cp_list:
-            check_pred(ctx, tally, g, seed, form, is_unitary, (obj,), {}, uni, "unitary_iff_choi / unitary_of_rank_one_tp", ex)
+        if form == "choi" or g.cp_list or (g.kind.startswith("neg-unitary") and form == "pairs"):
+            check_pred(ctx, tally, g, seed, form, is_unitary, (obj,), {}, uni, "unitaryV_yes_sound / unitaryV_no_sound (unitary_iff_choi, unitary_of_rank_one_tp)", ex)
         # --- Choi rank
         if exact_float:
             desc = {"predicate": "choi_rank", "form": form, **g.desc(), "seed": seed}
@@ -745,7 +763,22 @@ def check_map(ctx, tally, g: GT, seed, with_choi=True):
                               {"function": "choi_rank", "form": form, "kind": g.kind, "case_seed": seed, "gen": g.gen, "impl": str(res), "model": rep["rank"], "theorem": "choiRank_exact / rankQ_eq_rank (exact elimination = Matrix.rank), choiRank_le_kraus"})
         # --- extremality (channels only; Choi form only where the dimensions can be inferred; flat or nested lists)
         if cp == "yes" and tp == "yes" and form != "pairs" and (is_list or di == do):
-            check_pred(ctx, tally, g, seed, form, is_extremal, (obj,), {}, "yes" if rep["extremal"] else "no", "Choi's extremality criterion (cited) on a basis of span{K_i}", ex)
+            check_pred(ctx, tally, g, seed, form, is_extremal, (obj,), {}, "yes" if rep["extremal"] else "no", "extremalDecide_correct (Choi's theorem: extreme_iff_basis_products_independent)", ex)
+            if is_list and "extremal_coded" in rep:
+                # the mirror of the procedure as coded (criterion on the list as given): must agree with toqito on every list,
+                # redundant or not (extremalAsCoded_correct / extremalAsCoded_dependent say when that is the right answer)
+                check_mirror_extremal(ctx, g, seed, form, obj, rep)
+
+
+def check_mirror_extremal(ctx, g, seed, form, obj, rep):
+    desc = {"predicate": "is_extremal", "form": form, **g.desc(), "seed": seed, "mirror": "extremalAsCoded"}
+    ctx.case(desc, g.di >= 2 and g.do >= 2, f"is_extremal-mirror/{form}/{g.kind}/{'redundant' if len(g.As) > rep['rank'] else 'independent'}")
+    prng = case_rng("c06/mirror_extremal", seed, form, g.kind, g.di, g.do)
+    res = pcall(ctx, prng, is_extremal, obj, info={"kind": g.kind, "case_seed": seed, "gen": g.gen})
+    if res[0] != "ok" or bool(res[1]) != bool(rep["extremal_coded"]):
+        ctx.violation(f"is_extremal[{form}] on a {g.kind} map {g.di}->{g.do}: {str(res)[:120]}; the mirror of its procedure (rank of the products of the list as given) says {rep['extremal_coded']}",
+                      {"function": "is_extremal", "form": form, "kind": g.kind, "di": g.di, "do": g.do, "case_seed": seed, "gen": g.gen, "impl": str(res)[:300],
+                       "model": rep["extremal_coded"], "lean": rep, "theorem": "extremalAsCoded (mirror); extremalAsCoded_correct / extremalAsCoded_dependent"})
 
 
 GENS = {}
@@ -806,6 +839,11 @@ def _g9(rng, p):
 @gen("weak-damping")
 def _g11(rng, p):
     return gt_weak_damping(rng, p["d"], p["n"])
+
+
+@gen("neg-unitary")
+def _g12(rng, p):
+    return gt_neg_unitary(rng, p["d"], p.get("dyadic", False))
 
 
 @gen("perturbed")
@@ -903,12 +941,21 @@ def run_choi_constructors(ctx, tally, quick):
             if inr:
                 props.update({"cp": True, "qc": True, "positive": True})
             elif p > 1:
-                props.update({"cp": False, "qc": False})  # (1-p)/d < 0 is an eigenvalue of J (d >= 2)
+                props.update({"cp": False, "qc": False})  # (1-p)/d < 0 is an eigenvalue of J (d >= 2): depolarizing_cp_iff
+                why["cp"] = why["qc"] = "depolarizing_not_cp_of_gt_one / depolarizing_cp_iff"
+            elif p < 0:
+                # -1/(d^2-1) <= p < 0 is still a channel (depolarizing_cp_iff)
+                ok = 1 + p * (d * d - 1) >= 0
+                props.update({"cp": ok, "qc": ok})
+                why["cp"] = why["qc"] = "depolarizing_cp_iff"
             check_choi_constructor(ctx, tally, "depolarizing", depolarizing, "c06_depolarizing", (d, float(p)), {"d": d, "p": p}, d, "depolarizing_apply", props)
             why = {"cp": "dephasing_choi_psd", "tp": "dephasing_tp", "unital": "dephasing_unital", "qc": "dephasing_choi_psd + dephasing_tp", "hp": "dephasing_choi_psd"}
             props = {"tp": True, "unital": True, "hp": True, "why": why, "nontrivial": 0 < p < 1 or d >= 3}
             if inr:
                 props.update({"cp": True, "qc": True, "positive": True})
+            elif p > 1:
+                props.update({"cp": False, "qc": False})  # dephasing_not_cp_of_gt_one: e_00 - e_11 has quadratic form 2(1-p) < 0
+                why["cp"] = why["qc"] = "dephasing_not_cp_of_gt_one"
             check_choi_constructor(ctx, tally, "dephasing", dephasing, "c06_dephasing", (d, float(p)), {"d": d, "p": p}, d, "dephasing_apply", props)
         if True:
             # default parameter
@@ -1039,7 +1086,7 @@ def check_returned_kraus(ctx, tally, g, ks, con, params):
     check_pred(ctx, tally, g, seed, "flat", is_unitary, (ks,), {}, rep["unitary"], "unitary_iff_choi", ex)
     check_pred(ctx, tally, g, seed, "pairs", is_trace_preserving, ([[k, k] for k in ks],), {}, tp, "pairMap_tp_iff", ex)
     if cp == "yes" and tp == "yes":
-        check_pred(ctx, tally, g, seed, "flat", is_extremal, (ks,), {}, "yes" if rep["extremal"] else "no", "Choi's extremality criterion (cited)", ex)
+        check_pred(ctx, tally, g, seed, "flat", is_extremal, (ks,), {}, "yes" if rep["extremal"] else "no", "extremalDecide_correct", ex)
 
 
 def run_qubit_constructors(ctx, tally, quick):
@@ -1116,6 +1163,10 @@ def check_pauli(ctx, tally, p, as_array, seed):
     if full[0] != "ok" or not isinstance(full[1], tuple) or len(full[1]) != 3:
         return cviol(ctx, f"pauli_channel({pf}, True, X): {str(full)[:200]}", "pauli_channel", params, theorem="pauliChoi_eq")
     Phi2, out, ks = full[1]
+    pair = pcall(ctx, None, pauli_channel, pf, True, info=pinfo)
+    if (pair[0] != "ok" or not isinstance(pair[1], tuple) or len(pair[1]) != 2 or max_dev(np.asarray(pair[1][0]), Jm) > TOL or len(pair[1][1]) != len(ks)
+            or any(not np.array_equal(np.asarray(a), np.asarray(b)) for a, b in zip(pair[1][1], ks)) or max_dev(np.asarray(Phi2), Jm) > TOL):
+        return cviol(ctx, f"pauli_channel({pf}, True): (Choi matrix, Kraus list) differs from the three-argument form", "pauli_channel", params, impl=str(pair)[:300], theorem="pauliChoi_eq_choi_kraus")
     strings = [Q.from_json(m) for m in rep["strings"]]
     bad = len(ks) != len(strings) or any(float(np.max(np.abs(np.asarray(k) - np.sqrt(float(x)) * s.to_float()))) > TOL for k, x, s in zip(ks, p, strings))
     if bad:
@@ -1176,6 +1227,261 @@ def run_pauli(ctx, tally, quick):
                 cviol(ctx, f"{pf_.__name__}(np.asarray(pauli_channel({q}))) = {r}", "pauli_channel", {"scalar": q}, predicate=pf_.__name__, theorem="mixed_unitary_tp_unital")
 
 
+# ------------------------------------------------------------------------------------------------ malformed arguments (documented guards)
+
+
+def run_malformed(ctx):
+    """the error guards of the predicates: non-square arrays are not Hermiticity preserving / completely positive (False, no exception);
+    choi_rank and is_extremal reject what is neither a list nor an array, is_extremal rejects an empty list"""
+    rng = ctx.rng
+    cases = []
+    for (r, c) in ((2, 4), (4, 2), (3, 9), (6, 4)):
+        a = rng.integers(-3, 4, size=(r, c)).astype(float)
+        cases.append(("is_herm_preserving", is_herm_preserving, (a,), ("ok", False), "phi.shape[0] != phi.shape[1] -> False"))
+        cases.append(("is_completely_positive", is_completely_positive, (a,), ("ok", False), "is_herm_preserving guard"))
+    cases.append(("choi_rank", choi_rank, (5,), ("ValueError", "Not a valid Choi matrix"), "documented ValueError"))
+    cases.append(("choi_rank", choi_rank, ("J",), ("ValueError", "Not a valid Choi matrix"), "documented ValueError"))
+    cases.append(("is_extremal", is_extremal, ([],), ("ValueError", "at least one Kraus operator"), "documented ValueError"))
+    cases.append(("is_extremal", is_extremal, (3,), ("ValueError", "list of Kraus operators or a Choi matrix"), "documented ValueError"))
+    cases.append(("is_extremal", is_extremal, ([np.eye(2), "K"],), ("ValueError", "list (or nested list) of Kraus operators"), "documented ValueError"))
+    for name, fn, args, want, why in cases:
+        ctx.case({"stream": "malformed", "function": name, "args": str([getattr(a, "shape", a) for a in args])}, True, f"malformed/{name}/{want[0]}")
+        res = call(fn, *args)
+        ok = res[0] == want[0] and (bool(res[1]) == want[1] if want[0] == "ok" else want[1] in res[1])
+        if not ok:
+            ctx.violation(f"{name}({[getattr(a, 'shape', a) for a in args]}): {str(res)[:160]}; expected {want} ({why})",
+                          {"function": name, "impl": str(res)[:200], "model": str(want), "theorem": why, "replay_kind": "malformed"})
+
+
+# ------------------------------------------------------------------------------------------------ tolerance arithmetic
+
+# (rtol, atol) settings; None = toqito's defaults, not passed
+TOLS = [None, (1e-05, 1e-08), (1e-3, 1e-6), (0.0, 1e-4), (1e-2, 0.0), (1e-7, 1e-3), (0.25, 1e-9)]
+DEFAULT_TOL = (1e-05, 1e-08)
+
+
+def gt_stine_dyadic(rng, di, do, r):
+    """Stinespring channel cut out of a signed permutation with phases in {1, i, -1, -i}: every entry is exactly representable"""
+    V = rational_unitary(rng, r * do, 0, dyadic=True)
+    Ks = [Q(V.re[k * do:(k + 1) * do, :di].copy(), V.im[k * do:(k + 1) * do, :di].copy()) for k in range(r)]
+    Ks = [K for K in Ks if np.any(K.re != 0) or np.any(K.im != 0)]
+    return GT("stinespring-dyadic", di, do, Ks, Ks, L=hcat([vec(K) for K in Ks]), cp_list=True)
+
+
+def tol_bases(rng, quick):
+    out = []
+    for d in (2, 3) if quick else (2, 3, 4):
+        out.append(gt_unitary(rng, d, True))
+        g = gt_mixture_sq(rng, d, True)
+        if g is not None:
+            out.append(g)
+    for (di, do, r) in ((2, 3, 1), (3, 2, 2)) if quick else ((2, 3, 1), (3, 2, 2), (2, 4, 1), (4, 2, 2), (3, 3, 2)):
+        out.append(gt_stine_dyadic(rng, di, do, r))
+    return out
+
+
+def tol_perturb(rng, base: GT, kind, delta: Fraction):
+    """Choi matrix of `base` with one entry (pair) moved by `delta`; returns (J, L or None): L certifies J >= 0 when it stays so"""
+    di, do = base.di, base.do
+    N = di * do
+    J = base.J.copy()
+    if kind == "none":
+        return J, base.L
+    if kind == "tp-diag":
+        p = int(rng.integers(N))
+        J.re[p, p] += delta
+        return J, base.L
+    if kind == "tp-off":
+        i, j = (int(x) for x in rng.choice(di, size=2, replace=False))
+        a = int(rng.integers(do))
+        J.re[i * do + a, j * do + a] += delta
+        J.re[j * do + a, i * do + a] += delta
+        return J, None
+    if kind == "unital-off":
+        a, b = (int(x) for x in rng.choice(do, size=2, replace=False))
+        i = int(rng.integers(di))
+        J.im[i * do + a, i * do + b] += delta
+        J.im[i * do + b, i * do + a] -= delta
+        return J, None
+    if kind == "herm-off":
+        nz = [(p, q) for p in range(N) for q in range(N) if p != q and (J.re[q, p] != 0 or J.im[q, p] != 0)]
+        cand = nz if nz and rng.integers(3) else [(p, q) for p in range(N) for q in range(N) if p != q]
+        p, q = cand[int(rng.integers(len(cand)))]
+        if rng.integers(2):
+            J.re[p, q] += delta
+        else:
+            J.im[p, q] += delta
+        return J, None
+    if kind == "herm-diag":
+        p = int(rng.integers(N))
+        J.im[p, p] += delta / 2
+        return J, None
+    raise AssertionError(kind)
+
+
+def tol_fr(t):
+    return (Fraction(t[0]), Fraction(t[1]))
+
+
+def lean_close(ctx, args, rt, at):
+    """the exact mirrors at (rtol, atol) and whether each answer survives scaling both tolerances by 1 -+ 1/64"""
+    out = {}
+    reps = []
+    for f in (F1, 1 - Fraction(1, 64), 1 + Fraction(1, 64)):
+        rep = ctx.lean().ask("c06_close", {**args, "rtol": fj(rt * f), "atol": fj(at * f)})
+        if "reject" in rep:
+            return None
+        reps.append(rep)
+    for k in ("hp", "tp", "unital", "tp_pairs"):
+        if k in reps[0]:
+            out[k] = reps[0][k] if reps[0][k] == reps[1][k] == reps[2][k] else None
+    out["psd"] = reps[0]["psd"]
+    return out
+
+
+def tol_call(ctx, prng, fn, obj, tol, style, info, **kw):
+    if tol is None:
+        return pcall(ctx, prng, fn, obj, info=info, **kw)
+    if style:
+        return pcall(ctx, prng, fn, obj, tol[0], tol[1], info=info, **kw)
+    return pcall(ctx, prng, fn, obj, info=info, rtol=tol[0], atol=tol[1], **kw)
+
+
+def tol_expect(ctx, name, form, kind, side, tol, res, want, info, theorem):
+    if want is None:
+        ctx.count(f"tolerance-borderline/{name}")
+        return
+    tkey = "default" if tol is None else f"{tol[0]:g},{tol[1]:g}"
+    ctx.case({"stream": "tolerance", "predicate": name, "form": form, **info["desc"], "tol": tkey}, True, f"tolerance/{name}/{form}/{kind}/{side}/{tkey}/{want}")
+    if res[0] != "ok" or bool(res[1]) != bool(want):
+        ctx.violation(f"{name}[{form}] with tolerances {tkey} on a {kind} perturbation ({side} the tolerance): {str(res)[:120]}; the exact mirror of its tolerance test says {want} ({theorem})",
+                      {"function": name, "form": form, "kind": kind, "side": side, "tolerances": tkey, "impl": str(res)[:300], "model": want, "theorem": theorem,
+                       "replay_kind": "tolerance", **{k: v for k, v in info.items() if k != "desc"}})
+
+
+def check_tolerance_case(ctx, base: GT, kind, side, tol, seed):
+    rng = np.random.default_rng(seed)
+    di, do = base.di, base.do
+    rt, at = tol_fr(tol if tol is not None else DEFAULT_TOL)
+    # the tolerance at the perturbed entry: b = 1 on the diagonal of the identity, 0 off it; |J_qp| ~ 1/4 .. 1 for Hermiticity
+    tau = {"none": F0, "tp-diag": at + rt, "tp-off": at, "unital-off": at, "herm-off": at + rt * Fraction(1, 2), "herm-diag": at + rt * Fraction(1, 2)}[kind]
+    if kind != "none" and tau == 0:
+        return
+    delta = tau * (1 - Fraction(1, 8)) if side == "inside" else tau * (1 + Fraction(1, 4)) + at * Fraction(1, 4)
+    if side == "outside" and kind in ("herm-off", "herm-diag"):
+        delta = (at + rt * 2) * Fraction(3, 2)       # |J_qp| <= 1 on the bases used
+    J, L = tol_perturb(rng, base, kind, delta)
+    args = {"form": "choi", "di": di, "do": do, "J": J.json()}
+    if L is not None:
+        args.update({"L": L.json(), "c": fj(F0)})
+    m = lean_close(ctx, args, rt, at)
+    if m is None:
+        ctx.violation("model rejects a well-formed tolerance case", {"function": "c06_close", "args": {"kind": kind, "di": di, "do": do}})
+        return
+    Jf = J.to_float() if seed % 2 or np.any(J.im != 0) else J.to_real_or_complex()
+    info = {"desc": {"base": base.kind, "di": di, "do": do, "perturbation": kind, "side": side, "seed": seed}, "case_seed": seed, "base": base.kind, "choi": J.json(), "lean": m}
+    prng = case_rng("c06/tolerance", seed, base.kind, kind, side, str(tol))
+    style = bool(seed % 3)
+    dimkw = {} if di == do else {"dim": [di, do]}
+    hp, tp, un, psd = m["hp"], m["tp"], m["unital"], m["psd"]
+    if psd == "yes" and at < Fraction(1, 10 ** 10):
+        # the certified bound is lambda_min >= 0 and the threshold -|atol| is (nearly) 0: a singular Choi matrix sits on the boundary of the
+        # eigenvalue test, floating-point eigenvalues of size -1e-17 decide it; not compared
+        psd = "unknown"
+        ctx.count("tolerance-borderline/eigenvalue-test-at-zero")
+    cp = None if hp is None else (False if not hp else (True if psd == "yes" else (False if psd == "no" else None)))
+    tol_expect(ctx, "is_herm_preserving", "choi", kind, side, tol, tol_call(ctx, prng, is_herm_preserving, Jf, tol, style, info), hp, info, "hpClose_iff / allclose_mirror")
+    if tol is None or not style:
+        tol_expect(ctx, "is_trace_preserving", "choi", kind, side, tol, tol_call(ctx, prng, is_trace_preserving, Jf, tol, False, info, **dimkw), tp, info, "tpClose_iff / allclose_mirror")
+    else:
+        tol_expect(ctx, "is_trace_preserving", "choi", kind, side, tol, pcall(ctx, prng, is_trace_preserving, Jf, tol[0], tol[1], 2, [di, do], info=info), tp, info, "tpClose_iff / allclose_mirror")
+    if tol is None or not style:
+        tol_expect(ctx, "is_unital", "choi", kind, side, tol, tol_call(ctx, prng, is_unital, Jf, tol, False, info, **dimkw), un, info, "unitalClose_iff / allclose_mirror")
+    else:
+        tol_expect(ctx, "is_unital", "choi", kind, side, tol, pcall(ctx, prng, is_unital, Jf, tol[0], tol[1], [di, do], info=info), un, info, "unitalClose_iff / allclose_mirror")
+    tol_expect(ctx, "is_completely_positive", "choi", kind, side, tol, tol_call(ctx, prng, is_completely_positive, Jf, tol, style, info), cp, info, "hpClose_iff + psdTolV_yes_imp / psdTolV_no_imp")
+    tol_expect(ctx, "is_positive", "choi", kind, side, tol, tol_call(ctx, prng, is_positive, Jf, tol, style, info), cp, info, "hpClose_iff + psdTolV_yes_imp / psdTolV_no_imp")
+    if di == do:
+        qc = None if cp is None or tp is None else (cp and tp)
+        if cp is False or tp is False:
+            qc = False
+        tol_expect(ctx, "is_quantum_channel", "choi", kind, side, tol, tol_call(ctx, prng, is_quantum_channel, Jf, tol, style, info), qc, info, "cp and tp mirrors")
+
+
+def check_tolerance_pairs(ctx, base: GT, side, tol, seed):
+    """paired list [[K_k, (1 + delta) K_k]]: sum A^dagger B = (1 + delta) 1, so the trace-preservation test sits at delta vs atol + rtol"""
+    di, do = base.di, base.do
+    rt, at = tol_fr(tol if tol is not None else DEFAULT_TOL)
+    tau = at + rt
+    delta = F0 if side == "exact" else (tau * (1 - Fraction(1, 8)) if side == "inside" else tau * (1 + Fraction(1, 4)))
+    As = base.As
+    Bs = [K.scale(1 + delta) for K in As]
+    phi_json = {"tag": "nested", "ops": [[a.json(), b.json()] for a, b in zip(As, Bs)]}
+    m = lean_close(ctx, {"form": "kraus", "phi": phi_json}, rt, at)
+    if m is None:
+        ctx.violation("model rejects a well-formed tolerance case (pairs)", {"function": "c06_close", "args": {"di": di, "do": do}})
+        return
+    obj = [[a.to_float(), b.to_float()] for a, b in zip(As, Bs)]
+    info = {"desc": {"base": base.kind, "di": di, "do": do, "perturbation": "pairs-scale", "side": side, "seed": seed}, "case_seed": seed, "base": base.kind, "lean": m}
+    prng = case_rng("c06/tolerance-pairs", seed, base.kind, side, str(tol))
+    style = bool(seed % 2)
+    tol_expect(ctx, "is_trace_preserving", "pairs", "pairs-scale", side, tol, tol_call(ctx, prng, is_trace_preserving, obj, tol, style, info), m.get("tp_pairs"), info, "tpPairsClose (sum A^dagger B) / allclose_mirror")
+    tol_expect(ctx, "is_unital", "pairs", "pairs-scale", side, tol, tol_call(ctx, prng, is_unital, obj, tol, style, info), m["unital"], info, "unitalClose_iff")
+    tol_expect(ctx, "is_herm_preserving", "pairs", "pairs-scale", side, tol, tol_call(ctx, prng, is_herm_preserving, obj, tol, style, info), m["hp"], info, "hpClose_iff")
+
+
+def check_psd_boundary(ctx, d, side, tol, seed):
+    """Hermitian J = sum_k t_k^2 v_k v_k^dagger - c 1 with an exact rational eigenbasis: smallest eigenvalue exactly -c (eigenvector v_0),
+    c = |atol| (1 - 1/16) (accepted) or |atol| (1 + 1/16) (rejected)"""
+    rng = np.random.default_rng(seed)
+    rt, at = tol_fr(tol if tol is not None else DEFAULT_TOL)
+    if at == 0:
+        return
+    N = d * d
+    V = rational_unitary(rng, N, int(rng.integers(N, 2 * N)))
+    ts = [F0] + [Fraction(int(rng.integers(1, 5)), int(rng.integers(2, 6))) for _ in range(N - 1)]
+    cols = [Q(V.re[:, k:k + 1].copy(), V.im[:, k:k + 1].copy()) for k in range(N)]
+    L = hcat([c.scale(t) for c, t in zip(cols[1:], ts[1:])])
+    c = at * (1 - Fraction(1, 16)) if side == "inside" else at * (1 + Fraction(1, 16))
+    J = (L @ L.H()) - Q.eye(N).scale(c)
+    args = {"form": "choi", "di": d, "do": d, "J": J.json()}
+    if side == "inside":
+        args.update({"L": L.json(), "c": fj(c)})
+    else:
+        args.update({"v": cols[0].json(), "mu": fj(c)})
+    rep = ctx.lean().ask("c06_close", {**args, "rtol": fj(rt), "atol": fj(at)})
+    want = {"yes": True, "no": False}.get(rep.get("psd"))
+    if "reject" in rep or want is None or want != (side == "inside") or not rep["hp"]:
+        ctx.violation("model: the certificate of a constructed eigenvalue-boundary case was not accepted", {"function": "c06_close", "args": {"d": d, "side": side, "tol": str(tol)}, "lean": rep})
+        return
+    info = {"desc": {"base": "eigenbasis", "di": d, "do": d, "perturbation": "psd-boundary", "side": side, "seed": seed}, "case_seed": seed, "choi": J.json(), "lean": rep}
+    prng = case_rng("c06/psd-boundary", seed, d, side, str(tol))
+    Jf = J.to_float()
+    style = bool(seed % 2)
+    for fn in (is_completely_positive, is_positive):
+        tol_expect(ctx, fn.__name__, "choi", "psd-boundary", side, tol, tol_call(ctx, prng, fn, Jf, tol, style, info), want, info, "psdTolV_yes_imp / psdTolV_no_imp / psd_shift_iff_eigenvalues")
+    tol_expect(ctx, "is_quantum_channel", "choi", "psd-boundary", side, tol, tol_call(ctx, prng, is_quantum_channel, Jf, tol, style, info), False if not want else None, info, "psdTolV_no_imp")
+
+
+def run_tolerance(ctx, quick, only=None):
+    rng = ctx.rng
+    bases = tol_bases(np.random.default_rng(int(rng.integers(1 << 62))), quick)
+    kinds = ("none", "tp-diag", "tp-off", "unital-off", "herm-off", "herm-diag")
+    for base in bases:
+        for tol in TOLS:
+            for kind in kinds:
+                for side in (("inside",) if kind == "none" else ("inside", "outside")):
+                    if quick and kind != "none" and rng.integers(3) == 0:
+                        continue
+                    check_tolerance_case(ctx, base, kind, side, tol, int(rng.integers(1 << 62)))
+            for side in ("exact", "inside", "outside"):
+                check_tolerance_pairs(ctx, base, side, tol, int(rng.integers(1 << 62)))
+    for d in (2, 3):
+        for tol in TOLS:
+            for side in ("inside", "outside"):
+                check_psd_boundary(ctx, d, side, tol, int(rng.integers(1 << 62)))
+
+
 # ------------------------------------------------------------------------------------------------ entry points
 
 
@@ -1232,6 +1538,11 @@ def run(ctx, model_ok=True):
         for d in (2, 3):
             for n in (512, 1000, 2000):
                 run_map(ctx, tally, "weak-damping", {"d": d, "n": n})
+    # ---- minus a unitary conjugation, as the pair [[U, -U]] and as a Choi matrix (rank one, Hermitian, negative)
+    for _ in range(reps):
+        for d in (2, 3):
+            run_map(ctx, tally, "neg-unitary", {"d": d})
+            run_map(ctx, tally, "neg-unitary", {"d": d, "dyadic": True})
     # ---- lists that mix real-valued and complex operators, a real one in front (drawn last: the streams above are as before)
     for _ in range(reps):
         for d in (2, 3, 4):
@@ -1239,6 +1550,9 @@ def run(ctx, model_ok=True):
             run_map(ctx, tally, "mixture-sq", {"d": d, "dyadic": True, "real_first": True})
             run_map(ctx, tally, "int", {"di": d, "do": int(rng.integers(2, 5)), "r": int(rng.integers(2, 4)), "cp": True, "mix": True})
             run_map(ctx, tally, "int", {"di": int(rng.integers(2, 5)), "do": d, "r": int(rng.integers(1, 4)), "cp": False, "mix": True})
+    # ---- tolerance arithmetic: perturbations placed just inside / just outside atol + rtol*|b| for several (rtol, atol), against the exact mirror
+    run_tolerance(ctx, quick)
+    run_malformed(ctx)
     ctx.extra["tolerances"] = {"predicate verdicts": "exact deciders; compared only when decided with margin 100*(atol+rtol*scale)", "constructor entries": "0 where the closed form is exactly representable, else 1e-12",
                                "applied outputs": "1e-9*scale"}
     ctx.extra["defect_families"] = dict(tally.fam)
@@ -1250,6 +1564,10 @@ def replay(ctx, rec):
     gen_ = rec.get("gen")
     if gen_ and gen_.get("name") in GENS:
         run_map(ctx, tally, gen_["name"], gen_["params"], seed=rec.get("case_seed"))
+    elif rec.get("replay_kind") == "tolerance":
+        run_tolerance(ctx, True)
+    elif rec.get("replay_kind") == "malformed":
+        run_malformed(ctx)
     else:
         # constructor cases are grid points: re-run the grids
         run_choi_constructors(ctx, tally, True)
